@@ -472,14 +472,16 @@ def s4_multi(tier):
     C = basic('C', 3)
     for wA in (None, [2, 1]):
         A = basic('A', 2, wA)
-        for crossings in ([['A'], ['C']], [['C'], ['A']], [['A', 'B'], ['C']]):
+        for crossings in ([['A'], ['C']], [['C'], ['A']], [['A', 'B'], ['C']], [['A'], ['B']], [['B'], ['A']]):
             for mode in ('weight', 'repeat'):
-                inner = {'op': 'multi', 'design': ['A', 'B', 'C'], 'crossings': crossings, 'constraints': [], 'rcc': True, 'mode': mode,
+                used = [n for n in ('A', 'B', 'C') if any(n in c for c in crossings)]      # no bystander factors
+                fs = [f for f in (A, B, C) if f['name'] in used]
+                inner = {'op': 'multi', 'design': used, 'crossings': crossings, 'constraints': [], 'rcc': True, 'mode': mode,
                          'alignment': 'equal preamble'}
-                out.append(spec([A, B, C], {'op': 'repeat', 'block': inner, 'constraints': []}, 'S4'))
-                out.append(spec([A, B, C], {'op': 'merge', 'blocks': [inner], 'constraints': [], 'mode': 'repeat'}, 'S4'))
+                out.append(spec(fs, {'op': 'repeat', 'block': inner, 'constraints': []}, 'S4'))
+                out.append(spec(fs, {'op': 'merge', 'blocks': [inner], 'constraints': [], 'mode': 'repeat'}, 'S4'))
                 for mt in (6, 7):
-                    out.append(spec([A, B, C], {'op': 'repeat', 'block': inner, 'constraints': [{'c': 'MinimumTrials', 'k': mt}]}, 'S4'))
+                    out.append(spec(fs, {'op': 'repeat', 'block': inner, 'constraints': [{'c': 'MinimumTrials', 'k': mt}]}, 'S4'))
     return out
 
 
